@@ -1,4 +1,6 @@
 #!/bin/sh
+# experiments on changed trees must not overwrite the committed evidence of the unchanged tree
+export VERIF_EVIDENCE_DIR=/tmp/verif-evidence-scratch
 # tools/seedtest.sh <PROP> <patchfile> [demo.py] : apply a seeded change to /repo, run the check (and the demo), undo.
 P=$1; PATCH=$2; DEMO=$3
 cd /repo || exit 9
